@@ -87,6 +87,15 @@ def pick(x, lo, hi):
     return hi
 
 
+def untraced():
+    """context manager: CrossHair's tracer off under the symbolic worker, nothing under a concrete replay"""
+    if SYMBOLIC:
+        from crosshair.tracers import NoTracing
+        return NoTracing()
+    import contextlib
+    return contextlib.nullcontext()
+
+
 class StubGap(BaseException):
     """The code under test used a function of a stubbed module that the stub does not model.  This says nothing about
     the property: the runner reports it as a harness error (exit 3), never as a VIOLATION."""
